@@ -89,6 +89,11 @@ def run_case(seed, tier, rec, st):
         if kind < 0.12:
             t = tg.literal()
             members = None
+        elif kind < 0.2:
+            # the two-member Optional[X] proper (as a field it often carries a falsy, non-None default)
+            t = ("opt", rng.choice([("int",), ("str",), ("bool",), ("float",), ("decimal",), ("timedelta",), ("fraction",), ("date",), ("uuid",)]),
+                 rng.choice(["Optional", "Optional", "union", "union_first"]))
+            members = None
         else:
             members = gen_union(tg, rng)
             style = "pipe" if (rng.random() < 0.15 and tg._all_pipe_ok(list(members))) else "Union"
@@ -124,10 +129,30 @@ def run_case(seed, tier, rec, st):
             return
         wname = tg.fresh("W")
         wx = {"n": "x", "t": t}
-        if t[0] == "opt" and rng.random() < 0.5:
+        FALSY = {"int": 0, "str": "", "bool": False, "float": 0.0, "decimal": __import__("decimal").Decimal(0),
+                 "timedelta": __import__("datetime").timedelta(0), "fraction": __import__("fractions").Fraction(0)}
+        if t[0] == "opt" and tast.strip(t[1])[0] in FALSY and rng.random() < 0.6:
+            # nullable field whose default is falsy but not None: an explicit null is still a value
+            wx.update(dmode="default", dseed=0, const_default=FALSY[tast.strip(t[1])[0]])
+        elif t[0] == "opt" and rng.random() < 0.5:
             wx.update(dmode="default", dseed=0, const_default=None)
         fam.add({"k": "dc", "name": wname, "bases": [], "mixin": "DataClassDictMixin", "fields": [wx]}, tg.value_maker)
         W = fam.get(wname)
+        # the same members in the opposite declaration order, as a sibling field of one class (typing treats the two
+        # unions as equal; the library must still try each in its own order)
+        pair = None
+        if t[0] == "union" and len(t[1]) >= 2 and rng.random() < 0.5:
+            t_rev = ("union", tuple(reversed(t[1])), "Union")
+            try:
+                live_rev = common.eval_type(fam, t_rev)
+                if live_rev is not tt:
+                    t_rev = common.align_unions(fam, t_rev, live_rev)
+                    pname = tg.fresh("P")
+                    fam.add({"k": "dc", "name": pname, "bases": [], "mixin": "DataClassDictMixin",
+                             "fields": [{"n": "a", "t": t}, {"n": "b", "t": t_rev}]}, tg.value_maker)
+                    pair = (fam.get(pname), t_rev)
+            except Exception:
+                pair = None
         vg = Gen(fam, rng)
         facts0 = {"type_kinds": sorted({n[0] for n in common.deep_nodes(fam, t)}), "union_copy_shortcut": common.union_copy_fact(fam, t)}
         # ---------------- encode: member values
@@ -187,6 +212,25 @@ def run_case(seed, tier, rec, st):
                 o = type(got[1]).__name__ if got[0] == "ok" else "raise"
                 e_ = type(exp[1]).__name__ if exp[0] == "ok" else "raise"
                 rec.violation(f"decode:{rname}:{type(d).__name__}-input:expected-{e_}:observed-{o}", det, facts)
+            if pair is not None and exp[0] == "ok":
+                P, t_rev = pair
+                rec.evaluation()
+                try:
+                    exp_b = ("ok", ref.dec(t_rev, d, Ctx()))
+                except RefError as e:
+                    exp_b = ("raise", e)
+                try:
+                    got_b = ("ok", P.from_dict({"a": d, "b": d}).b)
+                except Exception as ex:
+                    got_b = ("raise", ex)
+                if got_b[0] == exp_b[0] and (got_b[0] == "raise" or deep_eq(got_b[1], exp_b[1], key_order=False)):
+                    rec.count("decode_agree_return" if got_b[0] == "ok" else "decode_agree_raise")
+                    rec.count("sibling_union_reversed_order_agree")
+                else:
+                    rec.violation(f"decode:sibling-union-in-reversed-order:{type(d).__name__}-input", {"type": tast.render(t), "reversed": tast.render(t_rev),
+                                  "input": common.short(d, 300), "observed": common.short(got_b[1], 300) if got_b[0] == "ok" else f"raise {type(got_b[1]).__name__}",
+                                  "expected": common.short(exp_b[1], 300) if exp_b[0] == "ok" else "raise", "family": fam.to_json()},
+                                  dict(facts0, explained_by=explained_by(fam, t_rev, d, got_b)))
             rec.nontrivial((tast.shape_hash(t), repr(d)[:120]))
         rec.sample({"type": tast.render(t), "inputs": [common.short(x, 60) for x in inputs[:6]]})
     finally:
